@@ -18,7 +18,12 @@ fn rcs_lines() -> Vec<Option<Vec<u8>>> {
         v.extend_from_slice(b" Exp $");
         Some(v)
     };
-    vec![None, mk(b"ken"), mk(b"k\xe9n"), mk(b"k\xc3\xa0n"), mk(b"k\xc3\x85n")]
+    let with_tail = |tail: &[u8]| {
+        let mut v = mk(b"ken").unwrap();
+        v.extend_from_slice(tail);
+        Some(v)
+    };
+    vec![None, mk(b"ken"), mk(b"k\xe9n"), mk(b"k\xc3\xa0n"), mk(b"k\xc3\x85n"), with_tail(b" "), with_tail(b"\t\r")]
 }
 
 fn dist_names() -> Vec<Vec<u8>> {
@@ -33,6 +38,9 @@ fn dist_names() -> Vec<Vec<u8>> {
         b"patch-2.7.6.tar.xz".to_vec(),
         b"\xa0x\x85".to_vec(),
         b"patch-aa.orig".to_vec(),
+        b"patch-2.7.6.tar.xz.sig".to_vec(),
+        b"emul-x-patch-1.tar.old.bz2".to_vec(),
+        b"emul-x-patch-aa.orig".to_vec(),
     ]
 }
 
